@@ -2,12 +2,17 @@ package main
 
 import (
 	"bytes"
+	"crypto/sha1"
+	"encoding/hex"
 	"fmt"
 	"math"
 	"math/big"
+	"os"
+	"path/filepath"
 	"regexp"
 	"strconv"
 	"strings"
+	"sync"
 
 	"github.com/benhoyt/goawk/interp"
 	"github.com/benhoyt/goawk/parser"
@@ -191,6 +196,9 @@ type op struct {
 	Mode    string  `json:"mode,omitempty"`    // mode: "", csv, tsv, csv separator=X, or an invalid text; rmw / nfincr: the AWK spelling
 	Variant int     `json:"variant,omitempty"` // AWK spelling
 	Class   string  `json:"class,omitempty"`   // generator's class of the index / value (distribution only)
+	Route   string  `json:"route,omitempty"`   // read / operand: "m" = delivered by the main loop, "g" = plain getline, "v" = getline var
+	Inner   *op     `json:"inner,omitempty"`   // operand: the assignment the `var=value` operand performs (setnfstr, fs, ofs, mode)
+	Rec     string  `json:"rec_hex,omitempty"` // operand (routes g, m): the record the reader delivers after an accepted assignment
 }
 
 func (o op) val() []byte { return vh.Unhx(defHx(o.Val)) }
@@ -203,7 +211,62 @@ func defHx(s string) string {
 
 type history struct {
 	RSEmpty bool
+	Files   bool   // un-redirected input comes from ARGV operands (one one-record file per read) instead of stdin
+	InMode  string // "", "csv", "tsv": input mode of the whole history
 	Ops     []op
+}
+
+func (o op) rec() []byte { return vh.Unhx(defHx(o.Rec)) }
+
+// operandText: the command-line operand performing the inner assignment
+func operandText(in *op) string {
+	switch in.Kind {
+	case "setnfstr":
+		return "NF=" + string(in.val())
+	case "fs":
+		return "FS=" + string(in.val())
+	case "ofs":
+		return "OFS=" + string(in.val())
+	case "mode":
+		return "OUTPUTMODE=" + in.Mode
+	}
+	panic("operand: unsupported inner op " + in.Kind)
+}
+
+// okForOperand: the value survives the operand route unchanged (no escape processing, no newline)
+func okForOperand(b []byte) bool { return bytes.IndexAny(b, "\\\n\r\x00") < 0 }
+
+// ---- one-record files for the operand route and for getline < file -------------------------------
+
+var (
+	tmpOnce  sync.Once
+	tmpDir   string
+	tmpFiles sync.Map
+)
+
+func fileFor(content []byte) string {
+	tmpOnce.Do(func() {
+		d, err := os.MkdirTemp("", "vh_c06_")
+		if err != nil {
+			panic(err)
+		}
+		tmpDir = d
+	})
+	sum := sha1.Sum(content)
+	name := filepath.Join(tmpDir, hex.EncodeToString(sum[:10]))
+	if _, ok := tmpFiles.Load(name); !ok {
+		if err := os.WriteFile(name, append(append([]byte(nil), content...), '\n'), 0o644); err != nil {
+			panic(err)
+		}
+		tmpFiles.Store(name, true)
+	}
+	return name
+}
+
+func cleanupFiles() {
+	if tmpDir != "" {
+		os.RemoveAll(tmpDir)
+	}
 }
 
 // csvSepOfMode: (on, separator, valid)
@@ -265,6 +328,11 @@ func protoWords(h *history) []string {
 			}
 		case "dump":
 			ws = append(ws, "D")
+		case "operand":
+			inner := protoWords(&history{Ops: []op{*o.Inner}})[0]
+			ws = append(ws, "A~"+o.Route+"~"+defHx(o.Rec)+"~"+inner)
+		case "getlinevar", "getlinefile":
+			ws = append(ws, "K")
 		case "rmw":
 			ws = append(ws, "I:"+o.Idx.Proto+":"+defHx(o.Val))
 		case "nfincr":
@@ -310,10 +378,21 @@ func okForStdin(b []byte, rsEmpty bool) bool {
 	return b[0] != '\n' && b[len(b)-1] != '\n' && !bytes.Contains(b, []byte("\n\n"))
 }
 
+// plainText: letters, digits and single inner spaces only (reads the same as a raw record in every input mode)
+func plainText(b []byte) bool {
+	for _, c := range b {
+		if !((c >= 'a' && c <= 'z') || (c >= '0' && c <= '9')) {
+			return false
+		}
+	}
+	return len(b) > 0
+}
+
 func okForSubRepl(b []byte) bool { return bytes.IndexAny(b, "&\\") < 0 }
 
 // effectiveVariant normalises the requested spelling to one that is applicable to this op.
-func effectiveVariant(o op, rsEmpty bool) int {
+func effectiveVariant(o op, h *history) int {
+	rsEmpty := h.RSEmpty
 	switch o.Kind {
 	case "setline":
 		if o.Variant == 1 && okForSubRepl(o.val()) {
@@ -323,7 +402,7 @@ func effectiveVariant(o op, rsEmpty bool) int {
 			return 2
 		}
 	case "set":
-		if o.Variant == 1 && okForStdin(o.val(), rsEmpty) {
+		if o.Variant == 1 && okForStdin(o.val(), rsEmpty) && (h.InMode == "" || plainText(o.val())) {
 			return 1
 		}
 		if o.Variant == 2 && okForSubRepl(o.val()) {
@@ -341,13 +420,47 @@ func effectiveVariant(o op, rsEmpty bool) int {
 	return 0
 }
 
+const obsGetline = ` printf "g %d\n", r;`
+
+type rendered struct {
+	Prog  string
+	Stdin []byte
+	Args  []string
+}
+
 // renderAWK: the observation program and its stdin.
 func renderAWK(h *history) (string, []byte) {
+	r := render(h)
+	return r.Prog, r.Stdin
+}
+
+// render: the observation program, its stdin and its command-line operands. Operations are performed in a BEGIN block; in
+// the operand route ("Files") a read marked "m" is delivered by the main loop instead: the current block is closed and the
+// following operations run in the action of the next record (`{ seg++ } seg == k { … }`).
+func render(h *history) rendered {
 	var p strings.Builder
 	var stdin [][]byte
+	var args []string
+	seg := 0
+	feed := func(rec []byte) {
+		if h.Files {
+			args = append(args, fileFor(rec))
+		} else {
+			stdin = append(stdin, rec)
+		}
+	}
+	boundary := func() {
+		seg++
+		if seg == 1 {
+			p.WriteString(" } { seg++ }")
+		} else {
+			p.WriteString(" }")
+		}
+		p.WriteString(fmt.Sprintf(" seg == %d {", seg))
+	}
 	p.WriteString("BEGIN {")
 	for _, o := range h.Ops {
-		v := effectiveVariant(o, h.RSEmpty)
+		v := effectiveVariant(o, h)
 		switch o.Kind {
 		case "setline":
 			switch v {
@@ -359,8 +472,40 @@ func renderAWK(h *history) (string, []byte) {
 				p.WriteString(" $0 = " + awkStr(o.val()) + ";" + obsNone)
 			}
 		case "read":
-			stdin = append(stdin, o.val())
-			p.WriteString(" getline;" + obsNone)
+			feed(o.val())
+			if h.Files && o.Route == "m" {
+				boundary()
+				p.WriteString(obsNone)
+			} else {
+				p.WriteString(" getline;" + obsNone)
+			}
+		case "operand":
+			args = append(args, operandText(o.Inner))
+			accepted := !opFails(*o.Inner)
+			switch o.Route {
+			case "v":
+				if accepted {
+					feed([]byte("junk record"))
+				}
+				p.WriteString(" r = (getline junk);" + obsGetline)
+			case "g":
+				if accepted {
+					feed(o.rec())
+				}
+				p.WriteString(" r = getline;" + obsGetline)
+			default:
+				if accepted {
+					feed(o.rec())
+				}
+				boundary()
+				p.WriteString(obsNone)
+			}
+		case "getlinevar":
+			feed(o.val())
+			p.WriteString(" r = (getline junk);" + obsGetline)
+		case "getlinefile":
+			f := awkStr([]byte(fileFor(o.val())))
+			p.WriteString(" r = (getline junk < " + f + "); close(" + f + ");" + obsGetline)
 		case "get":
 			if v == 1 {
 				p.WriteString(" x = $0;" + obsVal)
@@ -370,7 +515,7 @@ func renderAWK(h *history) (string, []byte) {
 		case "set":
 			switch v {
 			case 1:
-				stdin = append(stdin, o.val())
+				feed(o.val())
 				p.WriteString(" getline $(" + o.Idx.Awk + ");" + obsNone)
 			case 2:
 				p.WriteString(" sub(/^.*$/, " + awkStr(o.val()) + ", $(" + o.Idx.Awk + "));" + obsNone)
@@ -404,7 +549,7 @@ func renderAWK(h *history) (string, []byte) {
 		case "nfincr":
 			p.WriteString(" " + o.Mode + ";" + obsNone)
 		case "dump":
-			p.WriteString(obsNF + ` x = $0;` + obsVal + ` n = int(NF + 0); for (k = 1; k <= n; k++) { x = $k;` + obsVal + ` } printf ".\n";`)
+			p.WriteString(obsNF + ` x = $0;` + obsVal + ` n = int(NF + 0); if (n > 5000) n = 5000; for (k = 1; k <= n; k++) { x = $k;` + obsVal + ` } printf ".\n";`)
 		}
 	}
 	p.WriteString(" }")
@@ -417,7 +562,7 @@ func renderAWK(h *history) (string, []byte) {
 		in = append(in, s...)
 		in = append(in, sep...)
 	}
-	return p.String(), in
+	return rendered{p.String(), in, args}
 }
 
 // ---- running the real interpreter and reading its observations ------------------------------------
@@ -442,6 +587,8 @@ func showToks(ts []tok) string {
 			s = append(s, fmt.Sprintf("n:%s:%v", vh.Hx(t.Bytes), t.F))
 		case "e":
 			s = append(s, fmt.Sprintf("e:%s:%s", t.Err, t.Int))
+		case "g":
+			s = append(s, "g:"+t.Int)
 		default:
 			s = append(s, t.K)
 		}
@@ -475,14 +622,21 @@ func classifyErr(msg string) (string, string) {
 }
 
 func runReal(h *history) ([]tok, vh.RunResult, string) {
-	src, stdin := renderAWK(h)
+	rd := render(h)
+	src := rd.Prog
 	prog, err := parser.ParseProgram([]byte(src), nil)
 	if err != nil {
 		return nil, vh.RunResult{}, "harness program does not parse: " + err.Error() + "\n" + src
 	}
-	cfg := &interp.Config{Stdin: bytes.NewReader(stdin)}
+	cfg := &interp.Config{Stdin: bytes.NewReader(rd.Stdin), Args: rd.Args}
 	if h.RSEmpty {
 		cfg.Vars = []string{"RS", ""}
+	}
+	switch h.InMode {
+	case "csv":
+		cfg.InputMode = interp.CSVMode
+	case "tsv":
+		cfg.InputMode = interp.TSVMode
 	}
 	res := vh.ExecProg(prog, cfg)
 	if res.Panic != "" {
@@ -509,6 +663,13 @@ func parseOut(out []byte) ([]tok, string) {
 			}
 			toks = append(toks, tok{K: string(out[:1])})
 			out = out[2:]
+		case 'g':
+			j := bytes.IndexByte(out, '\n')
+			if j < 0 || len(out) < 3 {
+				return nil, "bad g"
+			}
+			toks = append(toks, tok{K: "g", Int: string(out[2:j])})
+			out = out[j+1:]
 		case 'v':
 			// v <bit> <len>:<bytes>\n
 			i := bytes.IndexByte(out, ':')
@@ -600,6 +761,10 @@ func compareLean(ans string, toks []tok) string {
 			mf := numT{Proto: strings.TrimSuffix(parts[2], "/1")}.F()
 			if !(mf == t.F || (math.IsNaN(mf) && math.IsNaN(t.F))) {
 				return fmt.Sprintf("observation %d: NF value differs (model %v, interpreter %v)", i, mf, t.F)
+			}
+		case "g":
+			if t.K != "g" || t.Int != parts[1] {
+				return fmt.Sprintf("observation %d: getline result differs (model %s, interpreter %s)", i, parts[1], showToks([]tok{t}))
 			}
 		case "e":
 			if t.K != "e" || t.Err != parts[1] || (t.Int != parts[2]) {
